@@ -300,6 +300,172 @@ fn decorated_family(run: &mut Run, universe: &[RData]) -> (u64, u64) {
     (pairs, evals)
 }
 
+// ---------------------------------------------------------------------------------------
+// Validator family.  The families above decode with `expect _: T = d` inside a function; a
+// validator's handler arguments are decoded by code the compiler generates for the handler
+// itself, and the blueprint publishes *their* schemas (redeemer, datum).  Here every type -
+// plain, decorated and aliased (opaque types are illegal in a handler's interface:
+// IllegalOpaqueType) - is the redeemer type of a mint handler and the datum type of a spend
+// handler that accept whatever decodes (the arguments are left unused: a handler that turns
+// its datum straight back into Data, `d != None`, loses the check in silent builds to the
+// known optimiser defect D14, which C01/C02/C14 report); schema validation <=> the compiled validator
+// accepting a script context carrying that redeemer / datum.
+
+const VALIDATOR_TYPES: &str = r#"pub opaque type Id {
+  Id(Int)
+}
+
+pub opaque type Wrapped {
+  inner: Option<Bool>,
+}
+
+pub type Color {
+  Red
+  Green
+  Blue
+}
+
+pub type Shape {
+  Dot
+  Circle(Int)
+  Rect { w: Int, h: Int }
+}
+
+pub type Account {
+  owner: ByteArray,
+  id: Int,
+  flags: Pairs<Int, Bool>,
+}
+
+pub fn mk_id(i: Int) -> Id {
+  Id(i)
+}
+
+pub fn mk_wrapped(b: Option<Bool>) -> Wrapped {
+  Wrapped { inner: b }
+}
+"#;
+
+fn validator_types() -> Vec<(&'static str, Vec<&'static str>)> {
+    let mut v = decorated_types();
+    v.extend(vec![
+        ("Account", vec!["Account { owner: #\"00\", id: 1, flags: [Pair(1, True)] }"]),
+        ("Int", vec!["1"]),
+        ("Bool", vec!["True"]),
+        ("ByteArray", vec!["#\"ff\""]),
+        ("List<Int>", vec!["[1, 2]"]),
+        ("Option<Int>", vec!["Some(1)", "None"]),
+        ("(Int, Bool)", vec!["(1, True)"]),
+        ("Pairs<Int, Bool>", vec!["[Pair(1, True)]"]),
+        ("Color", vec!["Green"]),
+        ("Shape", vec!["Rect { w: 1, h: 2 }", "Dot"]),
+        ("List<Shape>", vec!["[Circle(1), Dot]"]),
+        ("Option<Account>", vec!["None", "Some(Account { owner: #\"\", id: 0, flags: [] })"]),
+    ]);
+    v
+}
+
+fn validator_family(run: &mut Run, universe: &[RData]) -> (u64, u64) {
+    let tys = validator_types();
+    let mut lib = String::from(DECORATED_DECLS);
+    lib.push('\n');
+    lib.push_str(VALIDATOR_TYPES);
+    let mut val = String::from("use deco.{Account, Color, Dino, Finally, Holder, Ints, Shape, Wow}\n");
+    for (k, (t, samples)) in tys.iter().enumerate() {
+        for (j, e) in samples.iter().enumerate() {
+            lib.push_str(&format!("\npub fn vsample_{k}_{j}() -> Data {{\n  let v: {t} = {e}\n  let d: Data = v\n  d\n}}\n"));
+        }
+        val.push_str(&format!("\nvalidator v_{k} {{\n  mint(_r: {t}, _policy: ByteArray, _tx: Data) {{\n    True\n  }}\n\n  spend(_d: Option<{t}>, _r: Data, _o: Data, _tx: Data) {{\n    True\n  }}\n\n  else(_) {{\n    fail\n  }}\n}}\n"));
+    }
+    let sc = Scratch::new("c12v", &[("lib/deco.ak".to_string(), lib), ("validators/vt.ak".to_string(), val)]);
+    let (mut pairs, mut evals) = (0u64, 0u64);
+    for level in ["silent", "verbose"] {
+        let tracing = if level == "silent" { silent() } else { aiken_lang::ast::Tracing::All(aiken_lang::ast::TraceLevel::Verbose) };
+        let text = match sc.build(tracing) {
+            Ok(t) => t,
+            Err(e) => {
+                run.machinery_error(format!("validator-family project does not build ({level}): {e}"));
+                return (pairs, evals);
+            }
+        };
+        let bp = match crate::pj::parse_blueprint(&text) {
+            Ok(b) => b,
+            Err(e) => {
+                run.machinery_error(format!("validator-family blueprint does not parse: {e}"));
+                return (pairs, evals);
+            }
+        };
+        let p = match sc.project().and_then(|(mut p, _)| p.check(true, None, false, false, 0, 1, Default::default(), silent(), false, None).map(|_| p).map_err(|es| crate::pj::show_errors(&es))) {
+            Ok(p) => p,
+            Err(e) => {
+                run.machinery_error(format!("validator-family project does not check: {e}"));
+                return (pairs, evals);
+            }
+        };
+        for (k, (t, samples)) in tys.iter().enumerate() {
+            let find = |h: &str| bp.validators.iter().find(|v| v.title == format!("vt.v_{k}.{h}"));
+            let (Some(mint), Some(spend)) = (find("mint"), find("spend")) else {
+                run.machinery_error(format!("blueprint entries of v_{k} ({t}) not found"));
+                continue;
+            };
+            let (Some(rs), Some(ds)) = (mint.redeemer.clone(), spend.datum.clone()) else {
+                run.machinery_error(format!("v_{k} ({t}): the blueprint has no redeemer / datum schema"));
+                continue;
+            };
+            let prog = mint.program.inner().clone();
+            let mut cands: Vec<(String, RData)> = universe.iter().map(|d| ("universe".to_string(), d.clone())).collect();
+            let mut n_samples = 0;
+            for j in 0..samples.len() {
+                let Ok(sp) = p.export("deco", &format!("vsample_{k}_{j}"), silent()) else { continue };
+                let sprog: Program<uplc::ast::NamedDeBruijn> = sp.program.inner().clone().into();
+                evals += 1;
+                if let Ok(Ok(uplc::ast::Term::Constant(c))) = guarded(move || sprog.eval(uplc::machine::cost_model::ExBudget::max()).result) {
+                    if let Constant::Data(d) = c.as_ref() {
+                        let d = rterm::from_impl_data(d);
+                        n_samples += 1;
+                        cands.push(("sample".into(), d.clone()));
+                        cands.extend(datau::mutation_ball(&d));
+                    }
+                }
+            }
+            let (mut acc, mut rej) = (0u64, 0u64);
+            for (kind, d) in &cands {
+                let pd = rterm::to_impl_data(d);
+                for (role, schema, ctx) in [("redeemer", &rs, crate::c18::ctx_mint(d)), ("datum", &ds, crate::c18::ctx_spend_with_datum(d))] {
+                    pairs += 1;
+                    evals += 1;
+                    let s_ok = guarded(|| schema.validate(&bp.definitions, &Constant::Data(pd.clone())).is_ok());
+                    let v_ok = crate::c18::accepts(&prog, &ctx);
+                    let case = json!({"engine":"c12-validators","type":t,"role":role,"level":level,"data":crate::datau_json(d),"kind":kind});
+                    match (s_ok, v_ok) {
+                        (Err(pn), _) => run.violation(Violation { signature: format!("schema-validation-panics|validator-{role}:{t}|{}", vcore::evid::panic_site_file(&pn)), what: format!("validating {} against the {role} schema of a handler taking {t} panicked: {pn}", rterm::show_data(d)), case }),
+                        (_, Err(pn)) => run.violation(Violation { signature: format!("validator-panics|{role}:{t}"), what: format!("running the validator whose {role} is a {t} on {} panicked: {pn}", rterm::show_data(d)), case }),
+                        (Ok(s), Ok(v)) if s != v => {
+                            let who = if s { "schema-accepts-what-the-validator-rejects" } else { "schema-rejects-what-the-validator-accepts" };
+                            run.violation(Violation {
+                                // (one input class, whatever the type: a spend handler's datum is
+                                // taken as `Option<Data>` and never checked against its type)
+                                signature: if role == "datum" && !s { "schema-rejects-what-the-validator-accepts|validator-datum|the datum of a spend handler is not checked against its declared type".to_string() } else { format!("{who}|validator-{role}:{t}|{}", kind.split(':').last().unwrap_or("")) },
+                                what: format!("handler {role} of type {t} ({level} build), Data {} ({kind}): the published schema {} it, the compiled validator {} it", rterm::show_data(d), if s { "accepts" } else { "rejects" }, if v { "accepts" } else { "rejects" }),
+                                case,
+                            });
+                        }
+                        (Ok(true), _) => acc += 1,
+                        _ => rej += 1,
+                    }
+                    if kind == "sample" && matches!(crate::c18::accepts(&prog, &ctx), Ok(false)) {
+                        run.violation(Violation { signature: format!("valid-sample-rejected|validator-{role}:{t}"), what: format!("the encoding {} of a valid {t} is rejected by the validator as {role}", rterm::show_data(d)), case: json!({"engine":"c12-validators","type":t,"role":role}) });
+                    }
+                }
+            }
+            if n_samples == 0 || acc == 0 || rej == 0 {
+                run.machinery_error(format!("validator family vacuous for {t}: samples {n_samples}, accepted {acc}, rejected {rej}"));
+            }
+        }
+    }
+    (pairs, evals)
+}
+
 fn run1(p: &Program<DeBruijn>, d: &RData) -> Result<uplc::ast::Term<uplc::ast::NamedDeBruijn>, String> {
     let prog = p.clone().apply_data(rterm::to_impl_data(d));
     match guarded(move || {
@@ -448,6 +614,12 @@ pub fn run(tier: Tier, replay: Option<String>) -> i32 {
     pairs += dpairs;
     evals += devals;
     run.set("decorated_alias_types", decorated_types().len() as u64);
+    // (the reduced universe in both tiers: 20 types x 2 roles x 2 builds on the full one is 19M runs)
+    let (vpairs, vevals) = validator_family(&mut run, &datau::depth2_reduced());
+    pairs += vpairs;
+    evals += vevals;
+    run.set("validator_family_types", validator_types().len() as u64);
+    run.set("validator_family_checks", vpairs);
     run.set("decorated_type_data_pairs", dpairs);
     run.set("types", probes.len() as u64);
     run.set("data_universe", universe.len() as u64);
